@@ -182,13 +182,23 @@ def _strategy(draw):
             restraints.append({"kind": "dist", "mol": name, "lo": lo, "hi": hi, "a": r["a"], "b": r["b"],
                                "dist": r["dist"], "tol": r["tol"]})
     elif kind == "persist":
-        build += ["[ molecule ]", f"{name} {lo} {hi}"]
         lp = draw(st.sampled_from([0.5, 1.0, 2.0]))
-        build += ["[ persistence_length ]", f"WCM {lp!r} 0 {nres - 1}"]
+        if hi - lo >= 2 and draw(st.booleans()):
+            # two batches for molecules of the same name: two [ molecule ] blocks with their own index ranges and
+            # persistence lengths
+            mid = draw(st.integers(lo + 1, hi - 1))
+            lp2 = draw(st.sampled_from([x for x in [0.5, 1.0, 2.0, 4.0] if x != lp]))
+            build += ["[ molecule ]", f"{name} {lo} {mid}", "[ persistence_length ]", f"WCM {lp!r} 0 {nres - 1}",
+                      "[ molecule ]", f"{name} {mid} {hi}", "[ persistence_length ]", f"WCM {lp2!r} 0 {nres - 1}"]
+            restraints.append({"kind": "persist", "mol": name, "lo": lo, "hi": mid, "a": 0, "b": nres - 1, "lp": lp, "batch": 0})
+            restraints.append({"kind": "persist", "mol": name, "lo": mid, "hi": hi, "a": 0, "b": nres - 1, "lp": lp2, "batch": 1})
+        else:
+            build += ["[ molecule ]", f"{name} {lo} {hi}"]
+            build += ["[ persistence_length ]", f"WCM {lp!r} 0 {nres - 1}"]
+            restraints.append({"kind": "persist", "mol": name, "lo": lo, "hi": hi, "a": 0, "b": nres - 1, "lp": lp})
         if draw(st.booleans()):
             # a box with one short edge (shorter than some of the sampled end-to-end distances)
             opts["box"] = [round(max(2.6, 0.3 * edge), 1), round(edge + 2.0, 1), round(edge + 2.0, 1)]
-        restraints.append({"kind": "persist", "mol": name, "lo": lo, "hi": hi, "a": 0, "b": nres - 1, "lp": lp})
     else:
         # every ring-shaped molecule type of the system may be declared cyclic (types with other residue
         # sizes have other step lengths and therefore other bounds)
@@ -340,9 +350,13 @@ def check(spec, ctx):
                 if r["kind"] == "dist":
                     want, tol = r["dist"], r["tol"]
                 else:
-                    if not captured:
-                        raise Violation("persistence:not_sampled", "no end-to-end distances were sampled")
-                    samples, avg_step, contour = captured[0]
+                    bidx = r.get("batch", 0)
+                    if len(captured) <= bidx:
+                        raise Violation("persistence:not_sampled", f"end-to-end distances were sampled for {len(captured)} batch(es); "
+                                                                   f"the build file declares batch {bidx + 1} (persistence length {r['lp']})")
+                    if "batch" in r:
+                        ctx.label("two_persistence_batches_one_name")
+                    samples, avg_step, contour = captured[bidx]
                     for s in samples:
                         if s < avg_step - 1e-9 or s > contour + 1e-9:
                             raise Violation("persistence:sample_out_of_range", f"sampled end-to-end distance {s} outside [{avg_step}, {contour}]")
